@@ -63,5 +63,25 @@ instance (d : Disk) : Decidable (DiskOk d) :=
     ⟨fun ⟨a, b, c, e, f, g, h, i, j⟩ => ⟨a, b, c, e, f, g, h, i, j⟩,
      fun ⟨a, b, c, e, f, g, h, i, j⟩ => ⟨a, b, c, e, f, g, h, i, j⟩⟩
 
+/-- the error of a failed `Open`, if it failed -/
+def errOf (r : Except RecErr (Disk × State)) : Option RecErr :=
+  match r with
+  | .error e => some e
+  | .ok _ => none
+
+/-! ## the reference a crash image is compared with -/
+
+/-- the reference (`DBM.Spec`: a map plus open/closed flags) after a list of steps -/
+def specFold (sp : Spec) : List Step → Spec
+  | [] => sp
+  | st :: rest => specFold (specStep sp st).1 rest
+
+/-- a logged mutation applied to a reference map -/
+def Mutation.spec (f : Key → Option Bytes) : Mutation → Key → Option Bytes
+  | .put k v => fun x => if x = k then some v else f x
+  | .del k => fun x => if x = k then none else f x
+
+def applySpec (f : Key → Option Bytes) (ms : List Mutation) : Key → Option Bytes := ms.foldl Mutation.spec f
+
 end FS
 end SST
